@@ -13,11 +13,96 @@ MON = [monitors.C08Monitor]
 
 
 def run_shard(args):
+    if args.get("mode") == "crash":
+        return run_crash(args)
     return histrun.run_history(args, MON, common.Result(), weights=WEIGHTS, driver_kw={"pool": 6, "audit_every": 3})
+
+
+def run_crash(args):
+    """Histories that contain a process death: every crash point of a write (enumerated with the C04
+    machinery) is a point of the collection's history; the tag <-> contents relation must hold over the
+    pre-state, every crash state and the states after the operation is retried."""
+    import os
+    import random
+    import shutil
+    import traceback
+    import json
+    from vf import storedrv, gen
+    from vf.props import c04
+    res = common.Result()
+    rng = random.Random(args["seed"])
+    base = common.mkscratch("c08c")
+    env = common.worker_env({"HOME": os.path.join(base, "home")})
+    os.environ["HOME"] = os.path.join(base, "home")
+    os.makedirs(os.environ["HOME"], exist_ok=True)
+    import logging
+    logging.disable(logging.CRITICAL)
+    try:
+        for backend, meta, op, prior in args["scenarios"]:
+            pre = os.path.join(base, "pre")
+            work = os.path.join(base, "work")
+            common.rmtree(pre)
+            c04.build_prestate(backend, meta, prior, rng, pre)
+            bodies = {"new": gen.ical(rng, "target-uid", "NEWTOKEN", rich=False), "replace": gen.ical(rng, "prior-0b" if prior >= 4 else "prior-0", "REPLACED", rich=False)}
+            common.rmtree(work)
+            shutil.copytree(pre, work, symlinks=True)
+            rec_file = os.path.join(base, "rec.json")
+            if os.path.exists(rec_file):
+                os.unlink(rec_file)
+            if c04.child_run(backend, work, op, bodies, None, rec_file) != 0:
+                res.inconclusive.append(f"{backend}/{op}: recording pass failed")
+                continue
+            n = json.load(open(rec_file))["n"]
+            tag_to_fp, fp_to_tag = {}, {}
+
+            def observe(path, where):
+                st = storedrv.open_store(backend, path)
+                members = {}
+                for name, ct, etag in st.iter_with_etag():
+                    members[name] = c04.sha(b"".join(st.get_file(name, ct, etag).content))
+                fp = common.h(sorted(members.items()))
+                tag = st.get_ctag()
+                res.count("crash_tag_observations")
+                sig = f"store-api/{backend}/crash-history"
+                if tag in tag_to_fp and tag_to_fp[tag][0] != fp:
+                    res.violation(f"{sig}/same-tag-different-contents", f"{backend}/{op}: ctag {tag} names contents {tag_to_fp[tag][1]} and also ({where}) {sorted(members)} with different bytes",
+                                  {"config": dict(args), "scenario": [backend, meta, op, prior], "where": where})
+                if fp in fp_to_tag and fp_to_tag[fp][0] != tag:
+                    res.violation(f"{sig}/equal-contents-different-tag", f"{backend}/{op}: equal contents have ctag {fp_to_tag[fp][0]} ({fp_to_tag[fp][1]}) and {tag} ({where})",
+                                  {"config": dict(args), "scenario": [backend, meta, op, prior], "where": where})
+                tag_to_fp.setdefault(tag, (fp, where))
+                fp_to_tag.setdefault(fp, (tag, where))
+                res.seen("crash", backend, op, where.split(",")[0], tag)
+            observe(pre, "pre-state")
+            for k in range(1, n + 2):
+                common.rmtree(work)
+                shutil.copytree(pre, work, symlinks=True)
+                c04.child_run(backend, work, op, bodies, k, None)
+                res.evaluations += 1
+                observe(work, f"after a crash before mutation {k}/{n}")
+                # the client retries after the restart (stale locks removed by the operator)
+                for r_, d_, fs in os.walk(work):
+                    for fn in fs:
+                        if fn.endswith(".lock"):
+                            os.unlink(os.path.join(r_, fn))
+                try:
+                    c04.do_op(backend, work, op, bodies)
+                except Exception:
+                    pass
+                observe(work, f"after a crash before mutation {k}/{n}, restart and retry")
+            res.count("crash_scenarios")
+    except Exception:
+        res.inconclusive.append("harness exception: " + traceback.format_exc()[-1500:])
+    finally:
+        common.rmtree(base)
+    return res
 
 
 def check(tier, seed, t0):
     shards = _hist.plan(tier, seed, quick=(12, 120, 1), thorough=(16, 150, 6))
+    scs = [(b, m, op, 1) for b in ("tree", "bare") for m in ("file", "gitconfig") for op in ("create", "replace", "delete")]
+    for i in range(4):
+        shards.append({"mode": "crash", "seed": seed * 100 + 90 + i, "scenarios": scs[i::4]})
     merged, failures = _hist.run("vf.props.c08", shards, tier)
     c = merged["counters"]
     k = 1 if tier == "quick" else 8
@@ -25,7 +110,8 @@ def check(tier, seed, t0):
               ("intervals without change", c.get("unchanged_intervals", 0), 500 * k), ("reads inside unchanged intervals", c.get("unchanged_interval_reads", 0), 100 * k),
               ("refused requests inside unchanged intervals", c.get("unchanged_interval_refused", 0), 100 * k),
               ("writes to other collections inside unchanged intervals", c.get("unchanged_interval_other_writes", 0), 200 * k),
-              ("intervals with change", c.get("changed_intervals", 0), 200 * k), ("restarts", c.get("restarts", 0), 3)]
+              ("intervals with change", c.get("changed_intervals", 0), 200 * k), ("restarts", c.get("restarts", 0), 3),
+              ("tag observations in crash states (before and after retry)", c.get("crash_tag_observations", 0), 400)]
     return common.finish(PROP, tier, seed, "exploration", merged, failures, RULE, t0, guards=guards,
                          assumptions=["collection contents are fingerprinted from GET of every listed member at quiescent points", "a delete+recreate of a collection starts a new tag history"])
 
